@@ -17,6 +17,11 @@ CTransactionRef parse_tx(const char* p) {
     CDataStream ss(txData, SER_DISK, 0);
     CMutableTransaction mtx;
     UnserializeTransaction(mtx, ss);
+    if (!ss.empty()) {
+        // a transaction followed by more bytes is not the encoding of a transaction
+        fprintf(stderr, "tx hex string has %zu byte(s) of extra data after the transaction\n", ss.size());
+        return nullptr;
+    }
     CTransactionRef tx = MakeTransactionRef(CTransaction(mtx));
     return tx;
 }
